@@ -283,10 +283,18 @@ func runC09(c *Ctx) {
 		chunk, dpar := paramAt(f, 0), paramAt(f, 1)
 		for _, cp := range cps {
 			cc := cp.Node.(*ast.CallExpr)
-			okN := false
-			if call, ok := ast.Unparen(cc.Args[2]).(*ast.CallExpr); ok && core.CalleeName(binfo, call) == blobPkg+".Chunk.Size" && core.UsesObj(binfo, call, chunk) {
-				okN = true
+			// isChunkSize: chunk.Size(), or a local assigned once from it
+			isChunkSize := func(e ast.Expr) bool {
+				e = ast.Unparen(e)
+				if id, isId := e.(*ast.Ident); isId {
+					if rhs, _, cnt := singleDef(binfo, f.Body, binfo.Uses[id]); cnt == 1 && rhs != nil {
+						e = ast.Unparen(rhs)
+					}
+				}
+				call, ok := e.(*ast.CallExpr)
+				return ok && core.CalleeName(binfo, call) == blobPkg+".Chunk.Size" && chunk != nil && core.UsesObj(binfo, call, chunk)
 			}
+			okN := isChunkSize(cc.Args[2])
 			// destination is a checkWriter literal with d: d, size: chunk.Size()
 			okW := false
 			if p := core.PathOf(binfo, cc.Args[0]); p.Valid() {
@@ -303,7 +311,7 @@ func runC09(c *Ctx) {
 							case "d":
 								dOK = dpar != nil && core.UsesObj(binfo, kv.Value, dpar)
 							case "size":
-								sOK = chunk != nil && core.UsesObj(binfo, kv.Value, chunk) && len(core.CallsTo(binfo, kv.Value, false, blobPkg+".Chunk.Size")) == 1
+								sOK = isChunkSize(kv.Value)
 							case "w":
 								for _, oc := range core.CallsTo(binfo, kv.Value, false, "io.NewOffsetWriter") {
 									if se, ok := ast.Unparen(oc.Args[1]).(*ast.SelectorExpr); ok && se.Sel.Name == "Start" && core.UsesObj(binfo, se.X, chunk) {
@@ -597,7 +605,10 @@ func runC09(c *Ctx) {
 				// the retry loop is left only by returns: a break hands control to whatever follows the
 				// loop, where Pull's error is no longer the answer
 				if loop := loopAround(fn, h.Node); loop != nil {
-					for _, br := range g.Find(func(n ast.Node) bool { b, ok := n.(*ast.BranchStmt); return ok && (b.Tok == token.BREAK || b.Tok == token.GOTO) }) {
+					for _, br := range g.Find(func(n ast.Node) bool {
+						b, ok := n.(*ast.BranchStmt)
+						return ok && (b.Tok == token.BREAK || b.Tok == token.GOTO)
+					}) {
 						if within(loop, br.Node) && core.BranchTarget(fn.Body, br.Node.(*ast.BranchStmt)) == loop {
 							c.Check("C09-R6", fn.Key()+" retry loop left only by returning", c.Pos(br.Node), false, "a break out of the retry loop reaches the code after it, which does not report the last Pull error")
 						}
